@@ -46,6 +46,8 @@ def run(ctx):
                         "which validator X returned true constructs X; the CAN/CAN-FD and Ethernet validators test exactly the error bits of the protocol")
     res.rule("C04-R4", "truncation: packets are only constructed in the loop under isValidPacket evaluated on the current cursor and remaining size")
     res.rule("C04-R5", "positions: CmpHeader and MessageHeader getters read the wire positions of the layout oracle (G4 results of C12)")
+    res.rule("C04-R6", "reported length = wire length: Payload(type, data, size) gives its buffer exactly `size` bytes on every path, also for payloads "
+                        "kept as invalid (the decoder's stride is taken from the constructed packet's payload length)")
     res.not_decided += ["equality of every decoded field with the wire for every input; order beyond 'pushed in loop order'"]
     dec = m.decode
     D.rule_segtype_subject(res, "C04-R4", m)
@@ -280,6 +282,39 @@ def run(ctx):
                     return False
                 ok = all(tests_mask(atoms) for atoms in implied_atoms(val))
                 res.check(ok, "C04-R3", "error-bits:Ethernet", val.loc, "validator requires (getFlags() & 0x%X) == 0" % mask, "Ethernet validator does not test exactly the error bits 0x%X" % mask)
+    # ---- R6 reported length is the wire length, also for payloads that are kept as "invalid"
+    for base in ("ASAM::CMP::Payload", "TECMP::Payload"):
+        ctors = [f for f in fb.fns(base + "::Payload") if len(f.params) == 3 and f.params[1]["t"].get("k") == "ptr"]
+        for ctor3 in ctors:
+            sizep = ctor3.params[2]["decl"]
+            bufq, bufn = None, None
+            for fld in fb.record(base)["fields"]:
+                if fld["t"]["s"].startswith("std::vector<unsigned char"):
+                    bufq, bufn = fld["qname"], fld["name"]
+            sized_by_init = False
+            for i in ctor3.raw.get("inits", []) or []:
+                if i.get("field") == bufq and isinstance(i.get("e"), dict):
+                    a = (i["e"].get("args") or [])
+                    sized_by_init = bool(a) and strip_all_casts(a[0]).get("decl") == sizep
+                elif i.get("delegating") and isinstance(i.get("e"), dict):
+                    g = fb.resolve_call(i["e"])
+                    dargs = facts.effective_call(i["e"]).get("args", []) if g is not None else []
+                    for j in (g.raw.get("inits", []) if g is not None else []) or []:
+                        if j.get("field") == bufq and isinstance(j.get("e"), dict) and (j["e"].get("args") or []):
+                            src0 = strip_all_casts(j["e"]["args"][0])
+                            gpd = [q["decl"] for q in g.params]
+                            if src0.get("decl") in gpd and gpd.index(src0["decl"]) < len(dargs):
+                                sized_by_init = strip_all_casts(dargs[gpd.index(src0["decl"])]).get("decl") == sizep
+            every = sized_by_init
+            if not sized_by_init and ctor3.cfg_raw:
+                sets = {c["id"] for fld2, kind, c, ln in facts.vector_sizing(ctor3, bufq) if kind == "set" and ln is not None and
+                        strip_all_casts(facts.expand(ctor3, ln)).get("decl") == sizep}
+                allp = paths.enumerate_paths(ctor3)
+                every = bool(sets) and all(any(x["id"] in sets for x in q.calls()) for q in allp)
+            res.check(every, "C04-R6", "%s(type,data,size):length" % base.replace("ASAM::CMP::", ""), ctor3.loc,
+                      "the payload buffer holds exactly `size` bytes on every path (also when the bytes are not kept)",
+                      "%s(type, data, size) leaves the buffer shorter than `size` on some path: getLength() then differs from the wire length, and the "
+                      "decoder's stride (payload length + 16) walks into the middle of the message" % base)
     # ---- R5 positions
     obs, _ = accessors.analyse(fb, ctx.spec("layout.json"))
     for o in obs:
